@@ -534,6 +534,14 @@ def run(ctx):
 
     # ---- rendering ----------------------------------------------------------------
     hl = [(n.lower(), v) for n, v in headers]
+    # the error document reaches the client only if its framing is right: a declared length that
+    # differs from the bytes handed to the server truncates (or stalls) the body on the wire
+    cls_ = [v for n, v in hl if n == 'content-length']
+    if cls_ and (body or status not in (100, 101, 204, 304)) and \
+            (len(cls_) != 1 or cls_[0] != str(len(body))):
+        ctx.violate(('errors.render_window.body' if in_render else 'errors.rendering.body'),
+                    'Content-Length %r declared for an error response of %d body bytes %r' % (
+                        cls_, len(body), body[:60]), kind='framing', **sig)
     if pre_kind:
         ctx.probe('pre_request')
         own = set(['content-type', 'content-length', 'vary'])
